@@ -38,3 +38,21 @@ def trailer(data: bytes) -> bytes:
 
 def ends_with_good_fcs(msg: bytes) -> bool:
     return len(msg) >= 2 and trailer(msg[:-2]) == msg[-2:]
+
+
+# ---- workload helper (not part of the definition): choose two octets that drive the register from s to t
+_T = [step(0, i) for i in range(256)]
+_HI = {v >> 8: i for i, v in enumerate(_T)}
+assert len(_HI) == 256
+
+
+def force(s: int, t: int) -> bytes:
+    """The unique octet pair (a, b) with step(step(s, a), b) == t."""
+    i2 = _HI[t >> 8]
+    r1_hi = (t ^ _T[i2]) & 0xFF
+    i1 = _HI[r1_hi]
+    a = (s ^ i1) & 0xFF
+    r1 = (s >> 8) ^ _T[i1]
+    b = (r1 ^ i2) & 0xFF
+    assert step(step(s, a), b) == t
+    return bytes((a, b))
